@@ -122,6 +122,10 @@ CheckStep(e) ==
    IN
    IF bad THEN
       /\ Say(FALSE, id, "C01", "unprojectable:" \o e.bad, why)
+      \* the tree could be read, but a lookup / clone query raised: the index is out of step with the nodes
+      /\ ("badwhere" \in DOMAIN e => Say(FALSE, id, "C02", "lookup_raised:" \o e.bad, why))
+      \* a copy operation after which the tree (which holds the source) cannot be read any more
+      /\ (e.op.name \in CopyOps => Say(FALSE, id, "C07", "copy_left_tree_unreadable:" \o e.bad, why))
       /\ Say(StatusAllowed(r, e.status), id, "C04", "status:" \o e.status, why)
       \* a refused call after which the tree (or its lookups) cannot even be observed is not "unchanged"
       /\ Say(e.status = "ok", id, "C13", "unobservable_after_error:" \o e.bad, why)
